@@ -14,6 +14,8 @@ BASES = {
     "xsm2": lambda: (MD.xsm2(), "S1", "S0"),
     "xsm3": lambda: (MD.xsm3(), "S12", "S0"),
     "cubicB": lambda: (MD.Cubic1(0.4, 0.08, 0.1, 100.0, 12.0), "sym", "brk"),
+    # T0 = 75 < 0.8*Tn for Tn = 100: the symmetric phase exists with a margin over the range the solver needs (Tc = 106.07, T1 = 113.4)
+    "cubicD": lambda: (MD.Cubic1(0.2, 0.1, 0.1, 75.0, 12.0), "sym", "brk"),
     "cubicC": lambda: (MD.Cubic1(0.2, 0.05, 0.1, 90.0, 30.0), "sym", "brk"),
 }
 
